@@ -26,7 +26,11 @@ VARIABLES l, rn, skip, drift, nops, cov
 
 tvars == <<l, rn, skip, drift, nops, cov, pc, loc, fs, clock, nino, aux, last>>
 
-Modeled(e) == ~e.world /\ (IF FrontKind = "stack" THEN e.api \in {"get", "touch", "ensure"} ELSE e.api \in {"get", "touch", "set", "put"})
+\* (the stacked model has a plain write cache: runs whose write cache is sharded are not attempted)
+Modeled(e) == ~e.world /\ (IF FrontKind = "stack" THEN e.api \in {"get", "touch", "ensure"} /\ ~rn.wsharded ELSE e.api \in {"get", "touch", "set", "put"})
+\* an injected failure inside std::io::copy's private probing (fstat of source / destination): the fallback it takes is the
+\* standard library's business, the rest of that operation is not followed
+UnmodelledFault(e) == Has(e, "inj") /\ e.p \in DOMAIN pc /\ pc[e.p] \in {"ef1", "ef2"}
 
 \* Does recorded call e have the shape of the model's call c0?
 SamePath(a, b, lbl) == a.d = b.d /\ (a.n = b.n \/ (IsTempDir(b.d) /\ lbl \in {"a3", "ec"}))
@@ -66,7 +70,7 @@ AltsOf(lbl, lo) ==
 Alts(p) == UNION {AltsOf(pc[p], lo) : lo \in BaseAlts(p)}
 
 TInit ==
-    /\ l = 1 /\ rn = [job |-> "", run |-> 0] /\ skip = <<>> /\ drift = <<>> /\ nops = 0 /\ cov = {}
+    /\ l = 1 /\ rn = [job |-> "", run |-> 0, wsharded |-> FALSE] /\ skip = <<>> /\ drift = <<>> /\ nops = 0 /\ cov = {}
     /\ pc = <<>> /\ loc = <<>>
     /\ fs = EmptyFS /\ clock = 0 /\ nino = 0 /\ aux = <<>> /\ last = <<>>
 
@@ -130,6 +134,7 @@ TNext ==
             /\ rn' = [job |-> e.job, run |-> e.run,
                        front |-> IF Has(e, "cfg") /\ Has(e.cfg, "front") THEN e.cfg.front ELSE "?",
                        hasro |-> Has(e, "cfg") /\ Has(e.cfg, "roots") /\ \E i \in 1..Len(e.cfg.roots) : e.cfg.roots[i].role = "ro",
+                       wsharded |-> Has(e, "cfg") /\ Has(e.cfg, "roots") /\ \E i \in 1..Len(e.cfg.roots) : e.cfg.roots[i].role = "w" /\ e.cfg.roots[i].kind = "sharded",
                        cap |-> IF Has(e, "cfg") /\ Has(e.cfg, "shardcap") /\ FrontKind = "sharded" THEN e.cfg.shardcap
                                ELSE IF Has(e, "cfg") /\ Has(e.cfg, "cap") THEN e.cfg.cap ELSE 1000000]
             /\ skip' = <<>> /\ drift' = <<>> /\ pc' = <<>> /\ loc' = <<>> /\ nops' = 0
@@ -139,6 +144,7 @@ TNext ==
             /\ UNCHANGED <<rn, skip, drift, pc, loc, nops>>
        ELSE IF Drifted THEN UNCHANGED <<rn, skip, drift, pc, loc, nops>>
        ELSE IF e.e = "call" THEN CallEvent(e) /\ UNCHANGED <<rn, drift, nops>>
+       ELSE IF e.e = "sys" /\ UnmodelledFault(e) THEN skip' = Put(skip, e.p, TRUE) /\ UNCHANGED <<rn, drift, pc, loc, nops>>
        ELSE IF e.e = "sys" THEN SysEvent(e) /\ UNCHANGED <<rn, skip>>
        ELSE IF e.e = "ret" THEN RetEvent(e) /\ UNCHANGED <<rn, skip>>
        ELSE IF e.e \in {"crash", "gone", "frozen"} THEN
